@@ -94,6 +94,7 @@ theorem subOf_eq (cap esc : Bool) (outer : Nat) (e : Expr) (its : List Pat) (bd 
     subOf cap esc outer e its bd = if parenQ cap esc outer e then [Pat.grp cap bd] else its := rfl
 
 theorem R_lp (cap : Bool) : R (lp cap) = lp cap := by cases cap <;> decide
+theorem RV_lp (v cap : Bool) : RV v (lp cap) = lp cap := by cases v <;> cases cap <;> decide
 
 /-- the text never starts with a raw `?` when what follows does not -/
 def HeadOK (t : Str) : Prop := ∀ rest : List Nat, rest.head? ≠ some 63 → (t ++ rest).head? ≠ some 63
@@ -149,46 +150,46 @@ def Expr.endsQ (cap esc : Bool) : Expr → Bool
 
 /-! ### what the induction carries for one expression -/
 
-structure PP (cap esc : Bool) (e : Expr) : Prop where
+structure PP (v cap esc : Bool) (e : Expr) : Prop where
   items : e.isAlt = false → ∀ (f : Nat) (rest : List Nat) (st : List Frame) (al co : List Pat),
     (e.endsQ cap esc = true → rest.head? ≠ some 63) →
-    parseLoop false (f + (e.toks cap esc).1) (R (fmtExpr (cfgPlain cap esc) e) ++ rest) st al co =
+    parseLoop false (f + (e.toks cap esc).1) (RV v (fmtExpr (cfgPlain cap esc) e) ++ rest) st al co =
       parseLoop false f rest st al ((e.both cap esc).1.reverse ++ co)
   body : ∀ (f : Nat) (rest : List Nat) (fr : Frame) (st : List Frame),
-    parseLoop false (f + ((e.toks cap esc).2 + 1)) (R (fmtExpr (cfgPlain cap esc) e) ++ 41 :: rest) (fr :: st) [] [] =
+    parseLoop false (f + ((e.toks cap esc).2 + 1)) (RV v (fmtExpr (cfgPlain cap esc) e) ++ 41 :: rest) (fr :: st) [] [] =
       parseLoop false f rest st fr.alts (Pat.grp fr.capturing (e.both cap esc).2 :: fr.concat)
-  head : HeadOK (R (fmtExpr (cfgPlain cap esc) e))
-  len1 : e.isAlt = false → (e.toks cap esc).1 ≤ (R (fmtExpr (cfgPlain cap esc) e)).length
-  len2 : (e.toks cap esc).2 ≤ (R (fmtExpr (cfgPlain cap esc) e)).length
+  head : HeadOK (RV v (fmtExpr (cfgPlain cap esc) e))
+  len1 : e.isAlt = false → (e.toks cap esc).1 ≤ (RV v (fmtExpr (cfgPlain cap esc) e)).length
+  len2 : (e.toks cap esc).2 ≤ (RV v (fmtExpr (cfgPlain cap esc) e)).length
 
 theorem closeFrame_nil (its : List Pat) : closeFrame [] its.reverse = catList its := by
   simp [closeFrame, altList]
 
 /-- for an expression that is not an alternation the group body follows from the items -/
-theorem body_of_items (cap esc : Bool) (e : Expr) (hna : e.isAlt = false)
+theorem body_of_items (v cap esc : Bool) (e : Expr) (hna : e.isAlt = false)
     (hb : (e.both cap esc).2 = catList (e.both cap esc).1) (ht : (e.toks cap esc).2 = (e.toks cap esc).1)
     (hi : ∀ (f : Nat) (rest : List Nat) (st : List Frame) (al co : List Pat),
       (e.endsQ cap esc = true → rest.head? ≠ some 63) →
-      parseLoop false (f + (e.toks cap esc).1) (R (fmtExpr (cfgPlain cap esc) e) ++ rest) st al co =
+      parseLoop false (f + (e.toks cap esc).1) (RV v (fmtExpr (cfgPlain cap esc) e) ++ rest) st al co =
         parseLoop false f rest st al ((e.both cap esc).1.reverse ++ co))
     (f : Nat) (rest : List Nat) (fr : Frame) (st : List Frame) :
-    parseLoop false (f + ((e.toks cap esc).2 + 1)) (R (fmtExpr (cfgPlain cap esc) e) ++ 41 :: rest) (fr :: st) [] [] =
+    parseLoop false (f + ((e.toks cap esc).2 + 1)) (RV v (fmtExpr (cfgPlain cap esc) e) ++ 41 :: rest) (fr :: st) [] [] =
       parseLoop false f rest st fr.alts (Pat.grp fr.capturing (e.both cap esc).2 :: fr.concat) := by
   have : f + ((e.toks cap esc).2 + 1) = (f + 1) + (e.toks cap esc).1 := by rw [ht]; omega
   rw [this, hi (f + 1) (41 :: rest) (fr :: st) [] [] (by intro _; simp), step_rparen, List.append_nil, closeFrame_nil, hb]
 
 /-! ### sub-expressions -/
 
-theorem sub_parse (cap esc : Bool) (outer : Nat) (fb : Bool) (e : Expr) (hP : PP cap esc e)
+theorem sub_parse (v cap esc : Bool) (outer : Nat) (fb : Bool) (e : Expr) (hP : PP v cap esc e)
     (halt : e.isAlt = true → parenQ cap esc outer e = true)
     (f : Nat) (rest : List Nat) (st : List Frame) (al co : List Pat)
     (hq : (!(parenQ cap esc outer e) && e.endsQ cap esc) = true → rest.head? ≠ some 63) :
-    parseLoop false (f + subTok cap esc outer e (e.toks cap esc).1 (e.toks cap esc).2) (R (fmtSub (cfgPlain cap esc) outer fb e) ++ rest) st al co =
+    parseLoop false (f + subTok cap esc outer e (e.toks cap esc).1 (e.toks cap esc).2) (RV v (fmtSub (cfgPlain cap esc) outer fb e) ++ rest) st al co =
       parseLoop false f rest st al ((subOf cap esc outer e (e.both cap esc).1 (e.both cap esc).2).reverse ++ co) := by
   rw [fmtSub_eq, subOf_eq, subTok]
   by_cases hp : parenQ cap esc outer e = true
-  · simp only [hp, ite_true, R_append, R_lp, List.append_assoc]
-    have hR41 : R [41] = [41] := by decide
+  · simp only [hp, ite_true, RV_append, RV_lp, List.append_assoc]
+    have hR41 : RV v [41] = [41] := by cases v <;> decide
     rw [hR41]
     have hfuel : f + ((e.toks cap esc).2 + 2) = (f + ((e.toks cap esc).2 + 1)) + 1 := by omega
     rw [hfuel]
@@ -209,23 +210,23 @@ theorem sub_parse (cap esc : Bool) (outer : Nat) (fb : Bool) (e : Expr) (hP : PP
       | true => rw [halt h] at hp'; cases hp'
     exact hP.items hna f rest st al co (fun h => hq (by simp [hp', h]))
 
-theorem sub_head (cap esc : Bool) (outer : Nat) (fb : Bool) (e : Expr) (hP : PP cap esc e) : HeadOK (R (fmtSub (cfgPlain cap esc) outer fb e)) := by
+theorem sub_head (v cap esc : Bool) (outer : Nat) (fb : Bool) (e : Expr) (hP : PP v cap esc e) : HeadOK (RV v (fmtSub (cfgPlain cap esc) outer fb e)) := by
   rw [fmtSub_eq]
   split
   · apply HeadOK'.ok
-    rw [R_append, R_lp]
+    rw [RV_append, RV_lp]
     cases cap
-    · exact ⟨40, [63, 58] ++ R (fmtExpr (cfgPlain false esc) e ++ [41]), rfl, by decide⟩
-    · exact ⟨40, [] ++ R (fmtExpr (cfgPlain true esc) e ++ [41]), rfl, by decide⟩
+    · exact ⟨40, [63, 58] ++ RV v (fmtExpr (cfgPlain false esc) e ++ [41]), rfl, by decide⟩
+    · exact ⟨40, [] ++ RV v (fmtExpr (cfgPlain true esc) e ++ [41]), rfl, by decide⟩
   · exact hP.head
 
-theorem sub_len (cap esc : Bool) (outer : Nat) (fb : Bool) (e : Expr) (hP : PP cap esc e) (halt : e.isAlt = true → parenQ cap esc outer e = true) :
-    subTok cap esc outer e (e.toks cap esc).1 (e.toks cap esc).2 ≤ (R (fmtSub (cfgPlain cap esc) outer fb e)).length := by
+theorem sub_len (v cap esc : Bool) (outer : Nat) (fb : Bool) (e : Expr) (hP : PP v cap esc e) (halt : e.isAlt = true → parenQ cap esc outer e = true) :
+    subTok cap esc outer e (e.toks cap esc).1 (e.toks cap esc).2 ≤ (RV v (fmtSub (cfgPlain cap esc) outer fb e)).length := by
   rw [fmtSub_eq, subTok]
   by_cases hp : parenQ cap esc outer e = true
-  · simp only [hp, ite_true, R_append, R_lp, List.length_append]
+  · simp only [hp, ite_true, RV_append, RV_lp, List.length_append]
     have := hP.len2
-    have h41 : (R [41]).length = 1 := by decide
+    have h41 : (RV v [41]).length = 1 := by cases v <;> decide
     have hlp : 1 ≤ (lp cap).length := by cases cap <;> simp [lp]
     omega
   · have hp' : parenQ cap esc outer e = false := by simpa using hp
@@ -268,8 +269,27 @@ theorem pcE_head (esc : Bool) (x : Nat) (hx : x ≠ 92) : HeadOK' (pcE esc x) :=
     | false => rw [pcE_false]; exact pc_head x hx
     | true => rw [pcE_nonascii x (by omega)]; exact ⟨92, _, rfl, by decide⟩
 
-theorem R_escape_head (esc : Bool) (as : List Atom) (hne : as ≠ []) (hb : AtomsOK as) : HeadOK' (R (E esc (escapeSymbols (untok as)))) := by
-  rw [R_escapeSymbols esc as hb]
+theorem pcV_head (v esc : Bool) (x : Nat) (hx : x ≠ 92) : HeadOK' (pcV v esc x) := by
+  cases v with
+  | false => exact pcE_head esc x hx
+  | true =>
+    by_cases h : x < 128
+    · rw [pcV_ascii esc x h]
+      by_cases h35 : x = 35
+      · simp only [h35, ite_true]; exact ⟨92, _, rfl, by decide⟩
+      · by_cases h32 : x = 32
+        · simp only [h32]; exact ⟨92, _, rfl, by decide⟩
+        · simp only [h35, h32, ite_false]; exact pc_head x hx
+    · cases esc with
+      | true => rw [pcV_nonascii_esc x (by omega)]; exact ⟨92, _, rfl, by decide⟩
+      | false =>
+        rw [pcV_nonascii_raw x (by omega)]
+        split
+        · exact ⟨92, _, rfl, by decide⟩
+        · exact ⟨x, [], rfl, by omega⟩
+
+theorem R_escape_head (v esc : Bool) (as : List Atom) (hne : as ≠ []) (hb : AtomsOK as) : HeadOK' (RV v (E esc (escapeSymbols (untok as)))) := by
+  rw [R_escapeSymbols v esc as hb]
   split
   · exact ⟨92, [92], rfl, by decide⟩
   · rename_i hs
@@ -282,12 +302,12 @@ theorem R_escape_head (esc : Bool) (as : List Atom) (hne : as ≠ []) (hb : Atom
         | chr x =>
           have hx : x ≠ 92 := (hb _ List.mem_cons_self).1
           simp only [untok, List.flatMap_cons]
-          exact headOK'_append_left _ (pcE_head esc x hx)
+          exact headOK'_append_left _ (pcV_head v esc x hx)
         | cls k n =>
-          simp only [untok, List.flatMap_cons, pcE_92]
+          simp only [untok, List.flatMap_cons, pcV_92]
           exact ⟨92, _, rfl, by decide⟩
 
-theorem flatMap_pc_len (esc : Bool) (as : List Atom) (hb : ∀ a ∈ as, AtomOK a) : as.length ≤ ((untok as).flatMap (pcE esc)).length := by
+theorem flatMap_pc_len (v esc : Bool) (as : List Atom) (hb : ∀ a ∈ as, AtomOK a) : as.length ≤ ((untok as).flatMap (pcV v esc)).length := by
   induction as with
   | nil => simp [untok]
   | cons a r ih =>
@@ -295,43 +315,43 @@ theorem flatMap_pc_len (esc : Bool) (as : List Atom) (hb : ∀ a ∈ as, AtomOK 
     cases a with
     | chr x =>
       have hx : x ≠ 92 := (hb _ List.mem_cons_self).1
-      obtain ⟨c, t, hp, _⟩ := pcE_head esc x hx
+      obtain ⟨c, t, hp, _⟩ := pcV_head v esc x hx
       simp only [untok, List.flatMap_cons, List.length_append, List.length_cons, hp]
       omega
     | cls k n =>
-      simp only [untok, List.flatMap_cons, List.length_append, List.length_cons, pcE_92, pcE_letter, List.length_nil]
+      simp only [untok, List.flatMap_cons, List.length_append, List.length_cons, pcV_92, pcV_letter, List.length_nil]
       omega
 
-theorem R_escape_len (esc : Bool) (as : List Atom) (hb : AtomsOK as) : as.length ≤ (R (E esc (escapeSymbols (untok as)))).length := by
-  rw [R_escapeSymbols esc as hb]
+theorem R_escape_len (v esc : Bool) (as : List Atom) (hb : AtomsOK as) : as.length ≤ (RV v (E esc (escapeSymbols (untok as)))).length := by
+  rw [R_escapeSymbols v esc as hb]
   split
   · rename_i hs; subst hs; decide
   · rename_i hs
     rcases hb with hb | hb
     · exact absurd hb hs
-    · exact flatMap_pc_len esc as hb
+    · exact flatMap_pc_len v esc as hb
 
-theorem R_fmtLiteral (cap esc : Bool) (c : Cluster) (h : PlainBs c) :
-    R (fmtLiteral (cfgPlain cap esc) c) = c.flatMap (fun g => R (E esc (escapeSymbols g.value))) := by
-  rw [fmtLiteral_plain cap esc c h, R_flatMap]
+theorem R_fmtLiteral (v cap esc : Bool) (c : Cluster) (h : PlainBs c) :
+    RV v (fmtLiteral (cfgPlain cap esc) c) = c.flatMap (fun g => RV v (E esc (escapeSymbols g.value))) := by
+  rw [fmtLiteral_plain cap esc c h, RV_flatMap]
 
-theorem literal_head (cap esc : Bool) (c : Cluster) (h : PlainBs c) : HeadOK (R (fmtLiteral (cfgPlain cap esc) c)) := by
-  rw [R_fmtLiteral cap esc c h]
+theorem literal_head (v cap esc : Bool) (c : Cluster) (h : PlainBs c) : HeadOK (RV v (fmtLiteral (cfgPlain cap esc) c)) := by
+  rw [R_fmtLiteral v cap esc c h]
   cases c with
   | nil => exact headOK_nil
   | cons g gs =>
     obtain ⟨as, hne, hb, rfl⟩ := h _ List.mem_cons_self
     simp only [List.flatMap_cons, value_ofStr]
-    exact (headOK'_append_left _ (R_escape_head esc as hne hb)).ok
+    exact (headOK'_append_left _ (R_escape_head v esc as hne hb)).ok
 
-theorem literal_len (cap esc : Bool) (c : Cluster) (h : PlainBs c) : (atomsOf c).length ≤ (R (fmtLiteral (cfgPlain cap esc) c)).length := by
-  rw [R_fmtLiteral cap esc c h]
+theorem literal_len (v cap esc : Bool) (c : Cluster) (h : PlainBs c) : (atomsOf c).length ≤ (RV v (fmtLiteral (cfgPlain cap esc) c)).length := by
+  rw [R_fmtLiteral v cap esc c h]
   induction c with
   | nil => simp [atomsOf]
   | cons g gs ih =>
     obtain ⟨as, hne, hb, rfl⟩ := h _ List.mem_cons_self
     have := ih (fun x hx => h x (List.mem_cons_of_mem _ hx))
-    have := R_escape_len esc as hb
+    have := R_escape_len v esc as hb
     rw [atomsOf_cons as hb gs]
     simp only [List.flatMap_cons, List.length_append, value_ofStr] at *
     omega
@@ -370,15 +390,15 @@ end Grexv
 namespace Grexv
 open Spec
 
-theorem sub3_head' (cap esc : Bool) (fb : Bool) (e : Expr) (hwf : e.WF) (hnr : e.isRep = false) :
-    HeadOK' (R (fmtSub (cfgPlain cap esc) 3 fb e)) := by
+theorem sub3_head' (v cap esc : Bool) (fb : Bool) (e : Expr) (hwf : e.WF) (hnr : e.isRep = false) :
+    HeadOK' (RV v (fmtSub (cfgPlain cap esc) 3 fb e)) := by
   rw [fmtSub_eq]
   by_cases hp : parenQ cap esc 3 e = true
   · simp only [hp, ite_true]
-    rw [R_append, R_lp]
+    rw [RV_append, RV_lp]
     cases cap
-    · exact ⟨40, [63, 58] ++ R (fmtExpr (cfgPlain false esc) e ++ [41]), rfl, by decide⟩
-    · exact ⟨40, [] ++ R (fmtExpr (cfgPlain true esc) e ++ [41]), rfl, by decide⟩
+    · exact ⟨40, [63, 58] ++ RV v (fmtExpr (cfgPlain false esc) e ++ [41]), rfl, by decide⟩
+    · exact ⟨40, [] ++ RV v (fmtExpr (cfgPlain true esc) e ++ [41]), rfl, by decide⟩
   · have hp' : parenQ cap esc 3 e = false := by simpa using hp
     simp only [hp', Bool.false_eq_true, ite_false]
     cases e with
@@ -397,10 +417,10 @@ theorem sub3_head' (cap esc : Bool) (fb : Bool) (e : Expr) (hwf : e.WF) (hnr : e
       obtain ⟨x, rfl, _, _⟩ := single_literal_cfg cap esc c hwf hsc
       obtain ⟨as, hne, hb, hs⟩ := hwf _ List.mem_cons_self
       simp only [fmtExpr]
-      rw [R_fmtLiteral cap esc _ hwf]
+      rw [R_fmtLiteral v cap esc _ hwf]
       simp only [List.flatMap_cons, List.flatMap_nil, List.append_nil]
       rw [hs, value_ofStr]
-      exact R_escape_head esc as hne hb
+      exact R_escape_head v esc as hne hb
 
 theorem both_snd_nonalt (cap esc : Bool) (e : Expr) (h : e.isAlt = false) : (e.both cap esc).2 = catList (e.both cap esc).1 := by
   cases e with
@@ -424,101 +444,102 @@ theorem parenQ1_false (cap esc : Bool) (e : Expr) : parenQ cap esc 1 e = false :
 
 mutual
 /-- **print → parse, expression by expression** -/
-theorem Expr.pp (cap esc : Bool) : ∀ (e : Expr), e.WF → PP cap esc e
+theorem Expr.pp (v cap esc : Bool) : ∀ (e : Expr), e.WF → PP v cap esc e
   | .lit c, h => by
     have hi : ∀ (f : Nat) (rest : List Nat) (st : List Frame) (al co : List Pat),
         ((Expr.lit c).endsQ cap esc = true → rest.head? ≠ some 63) →
-        parseLoop false (f + ((Expr.lit c).toks cap esc).1) (R (fmtExpr (cfgPlain cap esc) (.lit c)) ++ rest) st al co =
+        parseLoop false (f + ((Expr.lit c).toks cap esc).1) (RV v (fmtExpr (cfgPlain cap esc) (.lit c)) ++ rest) st al co =
           parseLoop false f rest st al (((Expr.lit c).both cap esc).1.reverse ++ co) := by
       intro f rest st al co _
       simp only [fmtExpr, Expr.toks, Expr.both]
-      exact lex_literal cap esc c h f rest st al co
-    refine ⟨fun _ => hi, body_of_items cap esc _ rfl (both_snd_nonalt cap esc _ rfl) (toks_snd_nonalt cap esc _ rfl) hi, ?_, ?_, ?_⟩
-    · simp only [fmtExpr]; exact literal_head cap esc c h
-    · intro _; simp only [fmtExpr, Expr.toks]; exact literal_len cap esc c h
-    · simp only [fmtExpr, Expr.toks]; exact literal_len cap esc c h
+      exact lex_literal v cap esc c h f rest st al co
+    refine ⟨fun _ => hi, body_of_items v cap esc _ rfl (both_snd_nonalt cap esc _ rfl) (toks_snd_nonalt cap esc _ rfl) hi, ?_, ?_, ?_⟩
+    · simp only [fmtExpr]; exact literal_head v cap esc c h
+    · intro _; simp only [fmtExpr, Expr.toks]; exact literal_len v cap esc c h
+    · simp only [fmtExpr, Expr.toks]; exact literal_len v cap esc c h
   | .cls cs, h => by
     have hi : ∀ (f : Nat) (rest : List Nat) (st : List Frame) (al co : List Pat),
         ((Expr.cls cs).endsQ cap esc = true → rest.head? ≠ some 63) →
-        parseLoop false (f + ((Expr.cls cs).toks cap esc).1) (R (fmtExpr (cfgPlain cap esc) (.cls cs)) ++ rest) st al co =
+        parseLoop false (f + ((Expr.cls cs).toks cap esc).1) (RV v (fmtExpr (cfgPlain cap esc) (.cls cs)) ++ rest) st al co =
           parseLoop false f rest st al (((Expr.cls cs).both cap esc).1.reverse ++ co) := by
       intro f rest st al co _
       simp only [fmtExpr, Expr.toks, Expr.both]
-      exact lex_class cap esc cs h.1 h.2.2 f rest st al co
-    have hlen : 1 ≤ (R (fmtExpr (cfgPlain cap esc) (.cls cs))).length := by
+      exact lex_class v cap esc cs h.1 h.2.2 f rest st al co
+    have hlen : 1 ≤ (RV v (fmtExpr (cfgPlain cap esc) (.cls cs))).length := by
       simp only [fmtExpr]; rw [fmtClass_text]; simp
-    refine ⟨fun _ => hi, body_of_items cap esc _ rfl (both_snd_nonalt cap esc _ rfl) (toks_snd_nonalt cap esc _ rfl) hi, ?_, ?_, ?_⟩
+    refine ⟨fun _ => hi, body_of_items v cap esc _ rfl (both_snd_nonalt cap esc _ rfl) (toks_snd_nonalt cap esc _ rfl) hi, ?_, ?_, ?_⟩
     · simp only [fmtExpr]; rw [fmtClass_text]; exact (show HeadOK' _ from ⟨91, _, rfl, by decide⟩).ok
     · intro _; simpa [Expr.toks] using hlen
     · simpa [Expr.toks] using hlen
   | .cat a b, h => by
-    have pa := Expr.pp cap esc a h.1
-    have pb := Expr.pp cap esc b h.2
+    have pa := Expr.pp v cap esc a h.1
+    have pb := Expr.pp v cap esc b h.2
     have ha2 := parenQ_of_alt cap esc 2 (Nat.le_refl _) a
     have hb2 := parenQ_of_alt cap esc 2 (Nat.le_refl _) b
-    have htext : R (fmtExpr (cfgPlain cap esc) (.cat a b)) = R (fmtSub (cfgPlain cap esc) 2 true a) ++ R (fmtSub (cfgPlain cap esc) 2 true b) := by
-      simp only [fmtExpr, R_append]
+    have htext : RV v (fmtExpr (cfgPlain cap esc) (.cat a b)) = RV v (fmtSub (cfgPlain cap esc) 2 true a) ++ RV v (fmtSub (cfgPlain cap esc) 2 true b) := by
+      simp only [fmtExpr, RV_append]
     have hi : ∀ (f : Nat) (rest : List Nat) (st : List Frame) (al co : List Pat),
         ((Expr.cat a b).endsQ cap esc = true → rest.head? ≠ some 63) →
-        parseLoop false (f + ((Expr.cat a b).toks cap esc).1) (R (fmtExpr (cfgPlain cap esc) (.cat a b)) ++ rest) st al co =
+        parseLoop false (f + ((Expr.cat a b).toks cap esc).1) (RV v (fmtExpr (cfgPlain cap esc) (.cat a b)) ++ rest) st al co =
           parseLoop false f rest st al (((Expr.cat a b).both cap esc).1.reverse ++ co) := by
       intro f rest st al co hq
       rw [htext]
       simp only [Expr.toks, Expr.both, List.append_assoc, List.reverse_append]
       have hfuel : f + (subTok cap esc 2 a (a.toks cap esc).1 (a.toks cap esc).2 + subTok cap esc 2 b (b.toks cap esc).1 (b.toks cap esc).2) =
           (f + subTok cap esc 2 b (b.toks cap esc).1 (b.toks cap esc).2) + subTok cap esc 2 a (a.toks cap esc).1 (a.toks cap esc).2 := by omega
-      rw [hfuel, sub_parse cap esc 2 true a pa ha2, sub_parse cap esc 2 true b pb hb2]
+      rw [hfuel, sub_parse v cap esc 2 true a pa ha2, sub_parse v cap esc 2 true b pb hb2]
       · intro hqb
         apply hq
         simp only [Expr.endsQ, Bool.or_eq_true]
         exact Or.inr hqb
       · intro hqa
-        apply sub_head cap esc 2 true b pb
+        apply sub_head v cap esc 2 true b pb
         apply hq
         simp only [Expr.endsQ, Bool.or_eq_true]
         exact Or.inl hqa
-    refine ⟨fun _ => hi, body_of_items cap esc _ rfl (both_snd_nonalt cap esc _ rfl) (toks_snd_nonalt cap esc _ rfl) hi, ?_, ?_, ?_⟩
-    · rw [htext]; exact headOK_append (sub_head cap esc 2 true a pa) (sub_head cap esc 2 true b pb)
+    refine ⟨fun _ => hi, body_of_items v cap esc _ rfl (both_snd_nonalt cap esc _ rfl) (toks_snd_nonalt cap esc _ rfl) hi, ?_, ?_, ?_⟩
+    · rw [htext]; exact headOK_append (sub_head v cap esc 2 true a pa) (sub_head v cap esc 2 true b pb)
     · intro _
       rw [htext]
-      have := sub_len cap esc 2 true a pa ha2
-      have := sub_len cap esc 2 true b pb hb2
+      have := sub_len v cap esc 2 true a pa ha2
+      have := sub_len v cap esc 2 true b pb hb2
       simp only [Expr.toks, List.length_append]; omega
     · rw [htext]
-      have := sub_len cap esc 2 true a pa ha2
-      have := sub_len cap esc 2 true b pb hb2
+      have := sub_len v cap esc 2 true a pa ha2
+      have := sub_len v cap esc 2 true b pb hb2
       simp only [Expr.toks, List.length_append]; omega
   | .rep e q, h => by
     obtain ⟨rfl, hnr, hwf⟩ := h
-    have pe := Expr.pp cap esc e hwf
+    have pe := Expr.pp v cap esc e hwf
     have he3 := parenQ_of_alt cap esc 3 (by omega) e
-    have htext : R (fmtExpr (cfgPlain cap esc) (.rep e .question)) = R (fmtSub (cfgPlain cap esc) 3 false e) ++ [63] := by
-      simp only [fmtExpr, R_append, Comp.quantifier, cfgPlain, paint, Gen.strQuestion, Bool.false_eq_true, ite_false,
+    have htext : RV v (fmtExpr (cfgPlain cap esc) (.rep e .question)) = RV v (fmtSub (cfgPlain cap esc) 3 false e) ++ [63] := by
+      simp only [fmtExpr, RV_append, Comp.quantifier, cfgPlain, paint, Gen.strQuestion, Bool.false_eq_true, ite_false,
         List.append_nil]
-      rfl
+      have h63 : RV v [63] = [63] := by cases v <;> decide
+      rw [h63]
     obtain ⟨p, hp, hpq⟩ := subOf3_single cap esc e hwf hnr
     have hi : ∀ (f : Nat) (rest : List Nat) (st : List Frame) (al co : List Pat),
         ((Expr.rep e .question).endsQ cap esc = true → rest.head? ≠ some 63) →
-        parseLoop false (f + ((Expr.rep e .question).toks cap esc).1) (R (fmtExpr (cfgPlain cap esc) (.rep e .question)) ++ rest) st al co =
+        parseLoop false (f + ((Expr.rep e .question).toks cap esc).1) (RV v (fmtExpr (cfgPlain cap esc) (.rep e .question)) ++ rest) st al co =
           parseLoop false f rest st al (((Expr.rep e .question).both cap esc).1.reverse ++ co) := by
       intro f rest st al co hq
       rw [htext]
       simp only [Expr.toks, Expr.both, List.append_assoc, List.singleton_append]
       have hfuel : f + (subTok cap esc 3 e (e.toks cap esc).1 (e.toks cap esc).2 + 1) =
           (f + 1) + subTok cap esc 3 e (e.toks cap esc).1 (e.toks cap esc).2 := by omega
-      rw [hfuel, sub_parse cap esc 3 false e pe he3 (f + 1) (63 :: rest) st al co
+      rw [hfuel, sub_parse v cap esc 3 false e pe he3 (f + 1) (63 :: rest) st al co
         (by rw [endsQS3_false cap esc e hnr]; intro hc; cases hc)]
       rw [hp]
       simp only [List.reverse_cons, List.reverse_nil, List.nil_append, List.singleton_append, optOf]
       exact step_opt f rest (hq rfl) p hpq co st al
-    have hsublen := sub_len cap esc 3 false e pe he3
-    refine ⟨fun _ => hi, body_of_items cap esc _ rfl (both_snd_nonalt cap esc _ rfl) (toks_snd_nonalt cap esc _ rfl) hi, ?_, ?_, ?_⟩
-    · rw [htext]; exact (headOK'_append_left _ (sub3_head' cap esc false e hwf hnr)).ok
+    have hsublen := sub_len v cap esc 3 false e pe he3
+    refine ⟨fun _ => hi, body_of_items v cap esc _ rfl (both_snd_nonalt cap esc _ rfl) (toks_snd_nonalt cap esc _ rfl) hi, ?_, ?_, ?_⟩
+    · rw [htext]; exact (headOK'_append_left _ (sub3_head' v cap esc false e hwf hnr)).ok
     · intro _; rw [htext]; simp only [Expr.toks, List.length_append, List.length_singleton]; omega
     · rw [htext]; simp only [Expr.toks, List.length_append, List.length_singleton]; omega
   | .alt os, h => by
     obtain ⟨hne, hwfl⟩ := h
-    obtain ⟨hL, hH, hLen⟩ := Expr.ppL cap esc os hwfl hne
+    obtain ⟨hL, hH, hLen⟩ := Expr.ppL v cap esc os hwfl hne
     refine ⟨fun hc => by simp [Expr.isAlt] at hc, ?_, ?_, fun hc => by simp [Expr.isAlt] at hc, ?_⟩
     · intro f rest fr st
       simp only [fmtExpr, Expr.toks, Expr.both]
@@ -528,15 +549,15 @@ theorem Expr.pp (cap esc : Bool) : ∀ (e : Expr), e.WF → PP cap esc e
       simp only [closeFrame, hclose, List.reverse_nil, List.nil_append]
     · simp only [fmtExpr]; exact hH
     · simp only [fmtExpr, Expr.toks]; exact hLen
-theorem Expr.ppL (cap esc : Bool) : ∀ (os : List Expr), Expr.WFL os → os ≠ [] →
+theorem Expr.ppL (v cap esc : Bool) : ∀ (os : List Expr), Expr.WFL os → os ≠ [] →
     (∀ (f : Nat) (rest : List Nat) (st : List Frame) (al : List Pat), rest.head? ≠ some 63 →
-      ∃ al' co', parseLoop false (f + Expr.toksL cap esc os) (R (fmtAlt (cfgPlain cap esc) os) ++ rest) st al [] =
+      ∃ al' co', parseLoop false (f + Expr.toksL cap esc os) (RV v (fmtAlt (cfgPlain cap esc) os) ++ rest) st al [] =
           parseLoop false f rest st al' co' ∧
         (catList co'.reverse :: al').reverse = al.reverse ++ Expr.bothL cap esc os) ∧
-    HeadOK (R (fmtAlt (cfgPlain cap esc) os)) ∧ Expr.toksL cap esc os ≤ (R (fmtAlt (cfgPlain cap esc) os)).length
+    HeadOK (RV v (fmtAlt (cfgPlain cap esc) os)) ∧ Expr.toksL cap esc os ≤ (RV v (fmtAlt (cfgPlain cap esc) os)).length
   | [], _, hne => absurd rfl hne
   | [o], h, _ => by
-    have po := Expr.pp cap esc o h.2.1
+    have po := Expr.pp v cap esc o h.2.1
     have htext : fmtAlt (cfgPlain cap esc) [o] = fmtExpr (cfgPlain cap esc) o := by
       simp only [fmtAlt]; rw [fmtSub_eq, parenQ1_false]; simp
     refine ⟨?_, ?_, ?_⟩
@@ -548,14 +569,14 @@ theorem Expr.ppL (cap esc : Bool) : ∀ (os : List Expr), Expr.WFL os → os ≠
     · rw [htext]; exact po.head
     · rw [htext]; simpa [Expr.toksL] using po.len1 h.1
   | o :: o2 :: os, h, _ => by
-    have po := Expr.pp cap esc o h.2.1
-    obtain ⟨hL, hH, hLen⟩ := Expr.ppL cap esc (o2 :: os) h.2.2 (by simp)
-    have htext : R (fmtAlt (cfgPlain cap esc) (o :: o2 :: os)) =
-        R (fmtExpr (cfgPlain cap esc) o) ++ ([124] ++ R (fmtAlt (cfgPlain cap esc) (o2 :: os))) := by
+    have po := Expr.pp v cap esc o h.2.1
+    obtain ⟨hL, hH, hLen⟩ := Expr.ppL v cap esc (o2 :: os) h.2.2 (by simp)
+    have htext : RV v (fmtAlt (cfgPlain cap esc) (o :: o2 :: os)) =
+        RV v (fmtExpr (cfgPlain cap esc) o) ++ ([124] ++ RV v (fmtAlt (cfgPlain cap esc) (o2 :: os))) := by
       simp only [fmtAlt]
       rw [fmtSub_eq, parenQ1_false]
-      simp only [Bool.false_eq_true, ite_false, cfgPlain, Comp.pipe, paint, Gen.strPipe, R_append]
-      simp [show R [124] = [124] from by decide]
+      simp only [Bool.false_eq_true, ite_false, cfgPlain, Comp.pipe, paint, Gen.strPipe, RV_append]
+      simp [show RV v [124] = [124] from by cases v <;> decide]
     refine ⟨?_, ?_, ?_⟩
     · intro f rest st al hr
       obtain ⟨al', co', hrun, hclose⟩ := hL f rest st (catList (o.both cap esc).1 :: al) hr
